@@ -40,25 +40,63 @@ Qed.
 
 Local Open Scope nat_scope.
 
+Ltac sim_fields :=
+  constructor; cbn [log1 keys1 stages1 len1 size1 dirty1 elimit1 blimit1 regs1 lastcp1
+                    base0 stages0 kf0 dirty0 elimit0 blimit0 regs0 lastcp0].
+
 Lemma step_staging s1 s0 : Sim s1 s0 -> StepOk s1 s0 (staging1 s1) (staging0 s0).
 Proof.
   intros HS. unfold staging1, staging0, StepOk. cbn [fst snd]. rewrite (depth_eq _ _ HS). split; [|reflexivity].
-  constructor; cbn [log1 keys1 stages1 len1 size1 dirty1 elimit1 blimit1 regs1 base0 stages0 kf0 dirty0 elimit0 blimit0 regs0];
-    try apply HS.
+  sim_fields; try apply HS.
   cbn [Rlev]. exists [], (log1 s1). cbn [hd tl].
-  refine (conj eq_refl (conj eq_refl (conj eq_refl (conj (Rreg_nil _ _) (sim_lev _ _ HS))))).
+  refine (conj eq_refl (conj eq_refl (conj eq_refl (conj (Rreg_nil _ _ _) (sim_lev _ _ HS))))).
 Qed.
 
 Lemma step_limits s1 s0 e b : Sim s1 s0 ->
-  Sim (mk1 (log1 s1) (keys1 s1) (stages1 s1) (len1 s1) (size1 s1) (dirty1 s1) e b (wseq1 s1) (sseq1 s1) (regs1 s1))
-      (mk0 (base0 s0) (stages0 s0) (kf0 s0) (dirty0 s0) e b (regs0 s0)).
-Proof.
-  intros HS. constructor; cbn [log1 keys1 stages1 len1 size1 dirty1 elimit1 blimit1 regs1 base0 stages0 kf0 dirty0 elimit0 blimit0 regs0];
-    try apply HS; reflexivity.
-Qed.
+  Sim (mk1 (log1 s1) (keys1 s1) (stages1 s1) (len1 s1) (size1 s1) (dirty1 s1) e b (wseq1 s1) (sseq1 s1) (regs1 s1) (lastcp1 s1))
+      (mk0 (base0 s0) (stages0 s0) (kf0 s0) (dirty0 s0) e b (regs0 s0) (lastcp0 s0)).
+Proof. intros HS. sim_fields; try apply HS; reflexivity. Qed.
 
 Lemma jof_nil_iff lj : (match jof lj with [] => true | _ => false end) = Nat.eqb (length lj) 0.
 Proof. destruct lj; reflexivity. Qed.
+
+Lemma mono_app (a b : list nat) : mono a -> mono b -> (forall x y, In x a -> In y b -> x <= y) -> mono (a ++ b).
+Proof.
+  intros Ma Mb Hab i j ci cj Hij Hi Hj.
+  destruct (Nat.lt_ge_cases j (length a)) as [Hj1|Hj1].
+  - rewrite nth_error_app1 in Hi by lia. rewrite nth_error_app1 in Hj by lia. exact (Ma i j ci cj Hij Hi Hj).
+  - rewrite nth_error_app2 in Hj by lia. destruct (Nat.lt_ge_cases i (length a)) as [Hi1|Hi1].
+    + rewrite nth_error_app1 in Hi by lia. apply Hab; eapply nth_error_In; eassumption.
+    + rewrite nth_error_app2 in Hi by lia. apply (Mb (i - length a) (j - length a)); [lia|assumption|assumption].
+Qed.
+
+Lemma mono_single x : mono [x].
+Proof.
+  intros i j ci cj _ Hi Hj. destruct i as [|i]; [|destruct i; discriminate]. destruct j as [|j]; [|destruct j; discriminate].
+  cbn in Hi, Hj. inversion Hi; inversion Hj; subst. lia.
+Qed.
+
+Lemma Forall2_map_r {A B C} (R : A -> C -> Prop) (f : B -> C) l1 l2 :
+  Forall2 (fun a b => R a (f b)) l1 l2 -> Forall2 R l1 (map f l2).
+Proof. intros F. induction F; cbn; constructor; auto. Qed.
+
+(* Release: the tokens of the released level become tokens of the level below *)
+Lemma Rreg_merge lj lj2 p p2 lc ro so ri si :
+  p = p2 + length lj2 ->
+  Rreg lj2 p2 lc ro so -> Rreg lj p lc ri si ->
+  Rreg (lj ++ lj2) p2 lc (ro ++ ri) (so ++ map (fun sv => sv ++ jof lj2) si).
+Proof.
+  intros Ep (Fo & Mo & Lo) (Fi & Mi & Li). split; [|split].
+  - apply Forall2_app.
+    + eapply Forall2_imp; [|exact Fo]. intros c sv (n & o & -> & Hc & Hs). exists (lj ++ n), o. rewrite app_assoc. repeat split; assumption.
+    + apply Forall2_map_r. eapply Forall2_imp; [|exact Fi].
+      intros c sv (n & o & -> & Hc & Hs). exists n, (o ++ lj2). rewrite <- app_assoc, app_length, jof_app, Hs.
+      repeat split. lia.
+  - apply mono_app; [exact Mo|exact Mi|]. intros x y Hx Hy.
+    destruct (Forall2_In_l _ _ _ _ Fo Hx) as (sx & Tx). apply tok_bound in Tx.
+    destruct (Forall2_In_l _ _ _ _ Fi Hy) as (sy & (n & o & _ & Hc & _)). lia.
+  - intros c Hc. apply in_app_or in Hc. destruct Hc; auto.
+Qed.
 
 Lemma step_release s1 s0 h : Sim s1 s0 -> StepOk s1 s0 (release1 h s1) (release0 h s0).
 Proof.
@@ -73,11 +111,10 @@ Proof.
     destruct ps as [|p2 ps]; cbn [Rlev] in L; try contradiction. destruct L as [Eb Hreg0].
     cbn [fst snd]. split; [|reflexivity].
     assert (Hh : h = 0) by (cbn [length] in Hd; lia). subst h. cbn [Nat.eqb andb].
-    constructor; cbn [log1 keys1 stages1 len1 size1 dirty1 elimit1 blimit1 regs1 base0 stages0 kf0 dirty0 elimit0 blimit0 regs0];
-      try apply HS.
-    + cbn [Rlev]. split.
+    unfold merge_regs0. sim_fields; try apply HS.
+    + cbn [Rlev hd]. split.
       * rewrite El, jof_app, Ej, Eb. reflexivity.
-      * rewrite El. apply Rreg_grow. exact Hreg0.
+      * rewrite El, Eb. apply (Rreg_merge lj rest p 0); [lia|exact Hreg0|exact Hreg].
     + rewrite (sim_dirty _ _ HS). f_equal. rewrite Ej, jof_nil_iff. f_equal.
       rewrite El, app_length, <- Lr. destruct (Nat.eqb_spec (length lj) 0); destruct (Nat.eqb_spec (length rest) (length lj + length rest)); try reflexivity; lia.
   - (* merging into the stage below *)
@@ -85,13 +122,12 @@ Proof.
     destruct L as (lj2 & rest2 & El2 & Lr2 & Ej2 & Hreg2 & L).
     cbn [fst snd]. split; [|reflexivity].
     assert (Hone : Nat.eqb (S h) 1 = false) by (apply Nat.eqb_neq; cbn [length] in Hd; lia). rewrite Hone. cbn [andb].
-    constructor; cbn [log1 keys1 stages1 len1 size1 dirty1 elimit1 blimit1 regs1 base0 stages0 kf0 dirty0 elimit0 blimit0 regs0];
-      try apply HS.
-    + cbn [Rlev]. exists (lj ++ lj2), rest2.
+    unfold merge_regs0. sim_fields; try apply HS.
+    + cbn [Rlev hd tl]. exists (lj ++ lj2), rest2.
       refine (conj _ (conj Lr2 (conj _ (conj _ L)))).
       * rewrite El, El2, app_assoc. reflexivity.
       * rewrite jof_app, Ej, Ej2. reflexivity.
-      * apply Rreg_grow. exact Hreg2.
+      * rewrite Ej2. apply (Rreg_merge lj lj2 p p2); [rewrite <- Lr, El2, app_length; lia|exact Hreg2|exact Hreg].
     + rewrite (sim_dirty _ _ HS), orb_false_r. reflexivity.
 Qed.
 
@@ -111,16 +147,15 @@ Proof.
   destruct (revert_list lj rest (keys1 s1, len1 s1, size1 s1)) as [[keys' len'] size'] eqn:ER.
   unfold keys_of in Hlive. cbn [fst] in Hlive. destruct A' as (Ch & K & So & Hl & Hs).
   cbn [fst snd]. split; [|reflexivity].
-  constructor; cbn [log1 keys1 stages1 len1 size1 dirty1 elimit1 blimit1 regs1 base0 stages0 kf0 dirty0 elimit0 blimit0 regs0];
-    try assumption; try apply HS.
-  rewrite Hlive, Ej, (Rlev_all _ _ _ _ _ _ L), (sim_kf _ _ HS). reflexivity.
+  sim_fields; try assumption; try apply HS.
+  - (* the levels below, under the clamped lastCheckpoint *)
+    eapply Rlev_lc; [exact L|]. intros c Hc (cl & Ecl & Hle). rewrite Ecl. exists (Nat.min cl (length rest)). split; [reflexivity|lia].
+  - rewrite (sim_lastcp _ _ HS), (Rlev_all _ _ _ _ _ _ _ L), jof_length. reflexivity.
+  - rewrite Hlive, Ej, (Rlev_all _ _ _ _ _ _ _ L), (sim_kf _ _ HS). reflexivity.
 Qed.
 
 Lemma setTop_id js b j : topJ js b = j -> setTopJ js j = js /\ setTopB js b j = b.
 Proof. destruct js; cbn; intros <-; split; reflexivity. Qed.
-
-Lemma tok_bound lj p ct saved : tok_ok lj p ct saved -> fst ct <= p + length lj.
-Proof. intros (newer & older & -> & -> & _). rewrite app_length. lia. Qed.
 
 Lemma Forall2_length' {A B} (R : A -> B -> Prop) l1 l2 : Forall2 R l1 l2 -> length l1 = length l2.
 Proof. intros F. induction F; cbn; congruence. Qed.
@@ -131,31 +166,23 @@ Proof. intros F H. induction F; cbn; constructor; auto. Qed.
 Lemma step_checkpoint s1 s0 : Sim s1 s0 -> StepOk s1 s0 (checkpoint1 s1) (checkpoint0 s0).
 Proof.
   intros HS. unfold checkpoint1, checkpoint0, StepOk. cbn [fst snd].
-  destruct (Rlev_top _ _ _ _ _ _ (sim_lev _ _ HS)) as (lj & rest & El & Lr & Etop & Elow & Hreg & Rebuild).
-  destruct Hreg as [F M]. unfold reg1, reg0. split; [|rewrite (Forall2_length' _ _ _ F); reflexivity].
-  unfold with_regs0.
-  constructor; cbn [log1 keys1 stages1 len1 size1 dirty1 elimit1 blimit1 regs1 base0 stages0 kf0 dirty0 elimit0 blimit0 regs0];
-    try apply HS.
-  destruct (setTop_id _ _ _ Etop) as [E1 E2].
-  rewrite <- E1 at 1. rewrite <- E2 at 1. rewrite El at 1.
-  apply Rebuild; [|reflexivity|reflexivity]. cbn [hd].
-  rewrite top0_topJ, Etop. split.
-  - apply Forall2_app'; [exact F|]. exists [], lj. cbn [fst snd app].
-    refine (conj eq_refl (conj _ (fun _ => eq_refl))). rewrite El, app_length. lia.
-  - intros i j ci cj Hij Hi Hj.
-    destruct (Nat.lt_ge_cases j (length (hd [] (regs1 s1)))) as [Hlt|Hge].
-    + rewrite nth_error_app1 in Hi by lia. rewrite nth_error_app1 in Hj by lia. exact (M i j ci cj Hij Hi Hj).
-    + assert (Hjn : j < length (hd [] (regs1 s1) ++ [(length (log1 s1), false)])) by (apply nth_error_Some; rewrite Hj; discriminate).
-      rewrite app_length in Hjn. cbn [length] in Hjn.
-      assert (j = length (hd [] (regs1 s1))) by lia. subst j.
-      rewrite nth_error_app2, Nat.sub_diag in Hj by lia. cbn in Hj. inversion Hj; subst cj. cbn [fst].
-      destruct (Nat.lt_ge_cases i (length (hd [] (regs1 s1)))) as [Hi2|Hi2].
-      * rewrite nth_error_app1 in Hi by lia.
-        pose proof (Forall2_nth_error _ _ _ i F) as Q. rewrite Hi in Q.
-        destruct (nth_error (hd [] (regs0 s0)) i); [|contradiction].
-        apply tok_bound in Q. rewrite El, app_length. lia.
-      * assert (i = length (hd [] (regs1 s1))) by lia. subst i.
-        rewrite nth_error_app2, Nat.sub_diag in Hi by lia. cbn in Hi. inversion Hi; subst ci. cbn [fst]. lia.
+  destruct (Rlev_top _ _ _ _ _ _ _ (sim_lev _ _ HS)) as (lj & rest & El & Lr & Etop & Elow & Hreg & Rebuild).
+  destruct Hreg as (F & M & Lc). unfold reg1, reg0. split; [|rewrite (Forall2_length' _ _ _ F); reflexivity].
+  unfold with_lastcp0, with_regs0.
+  assert (Hlen : length (log1 s1) = top_pos (stages1 s1) + length lj) by (rewrite El, app_length; lia).
+  sim_fields; try apply HS.
+  - destruct (setTop_id _ _ _ Etop) as [E1 E2].
+    rewrite <- E1 at 1. rewrite <- E2 at 1. rewrite El at 1.
+    apply Rebuild; [|reflexivity|reflexivity|].
+    + cbn [hd]. rewrite top0_topJ, Etop. split; [|split].
+      * apply Forall2_app'; [exact F|]. exists [], lj. repeat split. exact Hlen.
+      * apply mono_app; [exact M| |].
+        -- apply mono_single.
+        -- intros x y Hx [<-|[]]. destruct (Forall2_In_l _ _ _ _ F Hx) as (sx & Tx). apply tok_bound in Tx. lia.
+      * intros c Hc. exists (length (log1 s1)). split; [reflexivity|]. apply in_app_or in Hc. destruct Hc as [Hc|[<-|[]]]; [|lia].
+        destruct (Forall2_In_l _ _ _ _ F Hc) as (sx & Tx). apply tok_bound in Tx. lia.
+    + intros c Hc _. exists (length (log1 s1)). split; [reflexivity|]. rewrite El, app_length. lia.
+  - rewrite (all_jof _ _ HS), jof_length. reflexivity.
 Qed.
 
 Lemma Forall2_firstn_idx {A B} (R R' : A -> B -> Prop) l1 l2 n :
@@ -173,23 +200,17 @@ Qed.
 Lemma firstn_len_app {A} (a b : list A) : firstn (length a) (a ++ b) = a.
 Proof. induction a; cbn; [destruct b; reflexivity|]. f_equal. assumption. Qed.
 
-Lemma with_regs0_proj s r :
-  base0 (with_regs0 s r) = base0 s /\ stages0 (with_regs0 s r) = stages0 s /\ kf0 (with_regs0 s r) = kf0 s /\
-  dirty0 (with_regs0 s r) = dirty0 s /\ elimit0 (with_regs0 s r) = elimit0 s /\ blimit0 (with_regs0 s r) = blimit0 s /\
-  regs0 (with_regs0 s r) = r.
-Proof. repeat split. Qed.
-
-Lemma step_revert s1 s0 i : Sim s1 s0 -> hazard1 s1 (ORevert i) = false -> StepOk s1 s0 (revert1 i s1) (revert0 i s0).
+Lemma step_revert s1 s0 i : Sim s1 s0 -> StepOk s1 s0 (revert1 i s1) (revert0 i s0).
 Proof.
-  intros HS Hz. unfold revert1, revert0, StepOk. cbn [hazard1] in Hz.
-  destruct (Rlev_top _ _ _ _ _ _ (sim_lev _ _ HS)) as (lj & rest & El & Lr & Etop & Elow & Hreg & Rebuild).
-  destruct Hreg as [F M]. pose proof (Forall2_nth_error _ _ _ i F) as Q. unfold reg1, reg0 in *.
-  destruct (nth_error (hd [] (regs1 s1)) i) as [[c t]|] eqn:N1; destruct (nth_error (hd [] (regs0 s0)) i) as [saved|] eqn:N0;
+  intros HS. unfold revert1, revert0, StepOk.
+  destruct (Rlev_top _ _ _ _ _ _ _ (sim_lev _ _ HS)) as (lj & rest & El & Lr & Etop & Elow & Hreg & Rebuild).
+  destruct Hreg as (F & M & Lc). pose proof (Forall2_nth_error _ _ _ i F) as Q. unfold reg1, reg0 in *.
+  destruct (nth_error (hd [] (regs1 s1)) i) as [c|] eqn:N1; destruct (nth_error (hd [] (regs0 s0)) i) as [saved|] eqn:N0;
     try contradiction; [|split; [exact HS|reflexivity]].
-  subst t. destruct Q as (newer & older & Elj & Ec & Hs). cbn [fst snd] in Ec, Hs. specialize (Hs eq_refl).
+  destruct Q as (newer & older & Elj & Ec & Hs).
   assert (El' : log1 s1 = newer ++ (older ++ rest)) by (rewrite El, Elj, app_assoc; reflexivity).
-  assert (Lc : length (older ++ rest) = c) by (rewrite app_length, Lr; lia).
-  unfold revert_to. rewrite El', <- Lc, revert_n_spec.
+  assert (Lc' : length (older ++ rest) = c) by (rewrite app_length, Lr; lia).
+  unfold revert_to. rewrite El', <- Lc', revert_n_spec.
   pose proof (sim_ainv _ _ HS) as A. rewrite El' in A.
   destruct (revert_list_ok newer (older ++ rest) _ A) as [A' Hlive].
   destruct (revert_list newer (older ++ rest) (keys1 s1, len1 s1, size1 s1)) as [[keys' len'] size'] eqn:ER.
@@ -200,27 +221,32 @@ Proof.
     replace (length newer + length older - length older) with (length (jof newer)) by (rewrite jof_length; lia).
     apply firstn_len_app. }
   rewrite Edrop.
-  unfold with_regs0, with_kf0.
-  constructor; cbn [log1 keys1 stages1 len1 size1 dirty1 elimit1 blimit1 regs1 base0 stages0 kf0 dirty0 elimit0 blimit0 regs0];
-    rewrite ?with_top0_stages, ?with_top0_base, ?with_top0_kf, ?with_top0_dirty, ?with_top0_el, ?with_top0_bl, ?with_top0_regs;
+  unfold with_lastcp0, with_regs0, with_kf0.
+  sim_fields;
+    rewrite ?with_top0_stages, ?with_top0_base, ?with_top0_kf, ?with_top0_dirty, ?with_top0_el, ?with_top0_bl, ?with_top0_regs, ?with_top0_lastcp;
     try assumption; try apply HS.
-  - rewrite Hs. apply Rebuild; [|reflexivity|reflexivity]. cbn [hd]. split.
-    + eapply Forall2_firstn_idx; [exact F|].
-      intros j [cj tj] sj Hj Hn1 Hn0 (nj & oj & Ej & Ecj & Hsj). cbn [fst snd] in *.
-      assert (Hle : cj <= c).
-      { change cj with (fst (cj, tj)). change c with (fst (c, false)). eapply (M j i); [lia|exact Hn1|exact N1]. }
-      assert (Hlo : length oj <= length older) by lia.
-      rewrite Elj in Ej. destruct (app_suffix _ _ _ _ Ej Hlo) as (x & Ex).
-      exists x, oj. cbn [fst snd]. repeat split; assumption.
-    + intros a b ca cb Hab Ha Hb. rewrite nth_error_firstn in Ha, Hb.
-      destruct (a <? S i); [|discriminate]. destruct (b <? S i); [|discriminate]. exact (M a b ca cb Hab Ha Hb).
+  - rewrite Hs. apply Rebuild; [|reflexivity|reflexivity|].
+    + cbn [hd]. split; [|split].
+      * eapply Forall2_firstn_idx; [exact F|].
+        intros j cj sj Hj Hn1 Hn0 (nj & oj & Ej & Ecj & Hsj).
+        assert (Hle : cj <= c) by (apply (M j i cj c); [lia|exact Hn1|exact N1]).
+        assert (Hlo : length oj <= length older) by lia.
+        rewrite Elj in Ej. destruct (app_suffix _ _ _ _ Ej Hlo) as (x & Ex).
+        exists x, oj. repeat split; assumption.
+      * intros a b ca cb Hab Ha Hb. rewrite nth_error_firstn in Ha, Hb.
+        destruct (a <? S i); [|discriminate]. destruct (b <? S i); [|discriminate]. exact (M a b ca cb Hab Ha Hb).
+      * intros c' Hc'. exists (length (older ++ rest)). split; [reflexivity|]. rewrite Lc'.
+        apply In_nth_error in Hc'. destruct Hc' as (j & Hj). rewrite nth_error_firstn in Hj.
+        destruct (Nat.ltb_spec j (S i)); [|discriminate]. apply (M j i c' c); [lia|exact Hj|exact N1].
+    + intros c' Hc' _. exists (length (older ++ rest)). split; [reflexivity|]. rewrite app_length. lia.
+  - rewrite Hs, lower0_lowerJ, Elow, <- jof_app, jof_length. reflexivity.
   - rewrite Hlive, (sim_kf _ _ HS), Hs, lower0_lowerJ, Elow, <- jof_app. reflexivity.
 Qed.
 
 Theorem step_sim s1 s0 o :
-  Sim s1 s0 -> hazard1 s1 o = false -> Sim (fst (step1 s1 o)) (fst (step0 s0 o)) /\ snd (step1 s1 o) = snd (step0 s0 o).
+  Sim s1 s0 -> Sim (fst (step1 s1 o)) (fst (step0 s0 o)) /\ snd (step1 s1 o) = snd (step0 s0 o).
 Proof.
-  intros HS Hz. destruct o; cbn [step1 step0];
+  intros HS. destruct o; cbn [step1 step0];
     try (cbn [fst snd]; split; [exact HS|apply obs_eq; [exact HS|reflexivity]]).
   - apply step_set; exact HS.
   - apply step_flags; exact HS.
@@ -239,12 +265,11 @@ Proof.
   - split; [reflexivity|]. apply Rreg_nil.
 Qed.
 
-Theorem run_refines ops : forall s1 s0, Sim s1 s0 -> no_hazard s1 ops = true ->
+Theorem run_refines ops : forall s1 s0, Sim s1 s0 ->
   run1 s1 ops = run0 s0 ops /\ Sim (exec1 s1 ops) (exec0 s0 ops).
 Proof.
-  induction ops as [|o ops IH]; intros s1 s0 HS Hn; [split; [reflexivity|exact HS]|].
-  cbn [no_hazard] in Hn. apply andb_true_iff in Hn. destruct Hn as [Hz Hn]. apply negb_true_iff in Hz.
-  destruct (step_sim _ _ o HS Hz) as [HS' Ho]. cbn [run1 run0 exec1 exec0].
+  induction ops as [|o ops IH]; intros s1 s0 HS; [split; [reflexivity|exact HS]|].
+  destruct (step_sim _ _ o HS) as [HS' Ho]. cbn [run1 run0 exec1 exec0].
   destruct (step1 s1 o) as [s1' x1]. destruct (step0 s0 o) as [s0' x0]. cbn [fst snd] in *.
-  destruct (IH _ _ HS' Hn) as [Hr He]. split; [rewrite Ho, Hr; reflexivity|exact He].
+  destruct (IH _ _ HS') as [Hr He]. split; [rewrite Ho, Hr; reflexivity|exact He].
 Qed.
